@@ -24,7 +24,7 @@ for f in $files; do mkdir -p "$d/tree/$(dirname $f)"; [ -f "/repo/$f" ] && cp "/
   echo '}}'
 } > "$d/overlay.json"
 if [ -z "${SKIP_SUITE:-}" ]; then
-  (cd /repo && go build -overlay "$d/overlay.json" ./... && go test -overlay "$d/overlay.json" -vet=off -count=1 ./... > "$d/suite.log" 2>&1) || { echo "SUITE FAILS with patch"; tail -20 "$d/suite.log"; exit 4; }
+  (cd /repo && go build -overlay "$d/overlay.json" ./... && go test -overlay "$d/overlay.json" -vet=off -count=1 -timeout 120s ./... > "$d/suite.log" 2>&1) || { echo "SUITE FAILS with patch"; tail -20 "$d/suite.log"; exit 4; }
   echo "suite passes with patch"
 fi
 export VERIF_OVERLAY="$d/overlay.json" VERIF_OUT="$d/out"
